@@ -171,8 +171,30 @@ class QuantMixin:
     def special_any(self, e: ast.Call, fr: Frame):
         return self._all_any(e, fr, False)
 
+    def desugar_map(self, arg, fr: Frame):
+        """map(f, xs) as the argument of all()/any() is the generator (f(x) for x in xs); with f =
+        operator.attrgetter('a') the element is x.a  (semantics-preserving desugaring on the AST)"""
+        if not (isinstance(arg, ast.Call) and isinstance(arg.func, ast.Name) and arg.func.id == 'map'
+                and len(arg.args) == 2 and not arg.keywords and not fr.has('map')):
+            return arg
+        f, xs = arg.args
+        x = '_map_x'
+        elt = None
+        if isinstance(f, ast.Call) and len(f.args) == 1 and not f.keywords and isinstance(f.args[0], ast.Constant) \
+                and isinstance(f.args[0].value, str) and '.' not in f.args[0].value:
+            so = self.static_of(self.ev(f.func, fr))
+            if getattr(so, 'name', None) == 'operator.attrgetter':
+                elt = ast.Attribute(value=ast.Name(id=x, ctx=ast.Load()), attr=f.args[0].value, ctx=ast.Load())
+        if elt is None:
+            elt = ast.Call(func=f, args=[ast.Name(id=x, ctx=ast.Load())], keywords=[])
+        g = ast.GeneratorExp(elt=elt, generators=[ast.comprehension(target=ast.Name(id=x, ctx=ast.Store()), iter=xs,
+                                                                    ifs=[], is_async=0)])
+        ast.copy_location(g, arg)
+        ast.fix_missing_locations(g)
+        return g
+
     def _all_any(self, e: ast.Call, fr: Frame, is_all: bool):
-        arg = e.args[0]
+        arg = self.desugar_map(e.args[0], fr)
         if not isinstance(arg, (ast.GeneratorExp, ast.ListComp)) or len(arg.generators) != 1:
             v = self.ev(arg, fr)
             return (self.bi_all if is_all else self.bi_any)([v], {})
@@ -220,7 +242,10 @@ class QuantMixin:
             self.quant_ctx.append(z3.And(i >= 0, i < n))
             try:
                 def thunk():
-                    pass
+                    if not fr.is_spec:
+                        # quantifier in CODE: obligations raised while evaluating the element predicate (callee
+                        # preconditions) are proved for indices inside the sequence only
+                        self.assume(z3.And(i >= 0, i < n))
                     sub = Frame(fr.func, fr.module, parent=fr, cls=fr.cls)
                     sub.is_spec = fr.is_spec
                     gen_run = z3.is_const(i) and i.decl().name().startswith('i*')
